@@ -8,7 +8,8 @@ Local Open Scope N_scope.
 
 Definition only (n : nat) : deviations :=
   {| d_stale_handler := Nat.eqb n 21; d_no_alias := Nat.eqb n 23; d_dup_set := Nat.eqb n 26; d_alias_abort := Nat.eqb n 120;
-     d_start_order := Nat.eqb n 121; d_pending_zombie := Nat.eqb n 122; d_limit_kw := Nat.eqb n 123; d_rt_owner := Nat.eqb n 124 |}.
+     d_start_order := Nat.eqb n 121; d_pending_zombie := Nat.eqb n 122; d_limit_kw := Nat.eqb n 123; d_rt_owner := Nat.eqb n 124;
+     d_stack_rollback := Nat.eqb n 125; d_interleave := Nat.eqb n 127; d_spurious_remove := Nat.eqb n 126 |}.
 
 Definition handler_gen (s : st) (k : key) : option gen := option_map fst (s_reg s k).
 Definition ref_gen (t : rst) (k : key) : option gen := option_map r_gen (ref_handler t k).
@@ -80,3 +81,32 @@ Proof.
   exists false, [startup [(0, [])] []; OExec 0 [SDefRt 0 [1] DAbs]; OExec 0 [SDef 1 [1] DAbs]], [1].
   split; vm_compute; reflexivity.
 Qed.
+
+(* D125: stacked @service decorators, one name owned elsewhere: the function loses every name *)
+Theorem refuted_D125 : refuted 125.
+Proof.
+  exists false, [startup [(0, [SDef 0 [2] DAbs]); (1, [SDefSt 0 [1; 2; 3] DAbs])] []], [1; 2; 3].
+  split; vm_compute; reflexivity.
+Qed.
+
+(* D127: interleaved start-ups: a later context takes a name an earlier function declares *)
+Theorem refuted_D127 : refuted 127.
+Proof.
+  exists false, [startup [(0, [SDefSt 0 [2; 1; 100] DAbs]); (2, [SDef 0 [1] DAbs])] []], [1; 2; 100].
+  split; vm_compute; reflexivity.
+Qed.
+
+(* D126: context 1 is unloaded while its function (names 1, 2) has registered only name 1: context 0's live service 2 is
+   removed as well.  (Interleaving, D127, is what makes the situation reachable; with D126 off the service survives.) *)
+From PV Require Import Life.ServicesMid.
+Definition cfg_mid (spurious : bool) : deviations :=
+  {| d_stale_handler := false; d_no_alias := false; d_dup_set := false; d_alias_abort := false; d_start_order := false;
+     d_pending_zombie := false; d_limit_kw := false; d_rt_owner := false; d_stack_rollback := false; d_interleave := true;
+     d_spurious_remove := spurious |}.
+Definition mid_final (cfg : deviations) : st :=
+  let s0 := run_ops cfg false [startup [(0, [SDef 0 [2] DAbs])] []] init_st in
+  let '(s1, m1) := held_load cfg s0 1 [SDefSt 0 [1; 2] DAbs] [] in
+  let '(s2, m2) := interrupt cfg s1 m1 (OUnload 1) in
+  release_mid cfg s2 m2.
+Theorem refuted_D126 : handler_gen (mid_final (cfg_mid true)) 2 = None /\ handler_gen (mid_final (cfg_mid false)) 2 = Some 1%N.
+Proof. split; vm_compute; reflexivity. Qed.
